@@ -154,6 +154,7 @@ package backend
 //@   ensures {C03,C04,C10} [copy-source-has-no-empty-segment] err == nil ==> !HasEmptySegment(ret0 + "/" + ret1)
 //@ func GetStringFromPtr
 //@   pure
+//@   ensures {C18,C01} [absent-is-empty] (str == nil ==> ret0 == "") && (str != nil ==> ret0 == *str)
 
 // ---- C01: the multipart ETag is "<md5 of the part digests>-<number of parts>" --------------------------------
 // (the suffix counts the parts of the completed upload; it is not the last part number)
